@@ -10,7 +10,7 @@ pub struct StyleController;
 
 impl Controller for StyleController {
     fn is_matching(request: &Request, _connection: &ConnectionInfo) -> bool {
-        request.method == METHOD.get &&request.request_uri == "/style.css"
+        (request.method == METHOD.get || request.method == METHOD.head || request.method == METHOD.options) && request.request_uri == "/style.css"
     }
 
     fn process(_request: &Request, mut response: Response, _connection: &ConnectionInfo) -> Response {
